@@ -10,7 +10,7 @@ import random
 HOSTILE = "<>&\"'\\*_`[]"
 BACKSLASHED = ["C:\\a\\b\\c", "D:\\<x>  ", "\\\\\\", "\\\\", "\\a\\b\\c\\d\\e", "a\\\\b\\", "\\\\\\\\\\", "x\\y",
                "\\'\\", "\\\"\\\\", "\\1\\2\\g<0>"]
-WORDS = ["<b>x</b>", "<i>", "</td>", "a<b", "x>y", "&amp;", "&lt;", "&", "a  b", "   ", "\\", "\\n", "it's", "*x*",
+WORDS = ["Hello World", "MiXeD Case", "<b>x</b>", "<i>", "</td>", "a<b", "x>y", "&amp;", "&lt;", "&", "a  b", "   ", "\\", "\\n", "it's", "*x*",
          "_y_", "`c`", "[[m]]", "say \"hi\"", "<script>", "1<2", "<!--", "<u>name"]
 
 
@@ -81,9 +81,10 @@ def init_expr(rng):
         pieces = [lit(rng) for _ in range(k)]
         return rng.choice([" // ", "//"]).join(pieces), True
     if r < 0.7:
-        return f"merge({lit(rng)}, {lit(rng)}, k<n)", True
+        return rng.choice(["merge", "MERGE", "Merge"]) + f"({lit(rng)}, {lit(rng)}, k<n)", True
     if r < 0.85:
-        return rng.choice(["merge(1,2,k<n)", "merge(1.0, 2.0, k > n)", "[1,2,3]", "2*k + 1", "iand(k,n)",
+        return rng.choice(["merge(1,2,k<n)", "merge(1.0, 2.0, k > n)", "[1,2,3]", "2*k + 1", "iand(k,n)", "MERGE(1,2,K<N)",
+                           "IAND(K, N)",
                            "1 <= 2", "k == n", "k/=n", "k >= n .and. n<=k"]), False
     return f"[{lit(rng)},{lit(rng)}]", True
 
